@@ -461,6 +461,14 @@ def gen_test_loops(repo, digital_state):
     return m
 
 
+def gen_port_line(repo, port):
+    """T20: port_to_line_data over the sample values"""
+    m = T.Module(f"{repo}/src/nitypes/waveform/_digital/_port.py", "Gen.PortLine", imports=[port])
+    m.extra_imports = ["NiVerif.Model.Port"]
+    m.translate_port_to_line("port_to_line_data")
+    return m
+
+
 MODULES = [
     # (output file, builder, dependencies by output name)
     ("TimeValueTuple", lambda repo, deps: gen_time_value_tuple(repo), []),
@@ -487,6 +495,7 @@ MODULES = [
     ("BtArray", lambda repo, deps: gen_bt_array(repo), []),
     ("AppendTiming", lambda repo, deps: gen_append_timing(repo), []),
     ("TestLoops", lambda repo, deps: gen_test_loops(repo, deps["DigitalState"]), ["DigitalState"]),
+    ("PortLine", lambda repo, deps: gen_port_line(repo, deps["Port"]), ["Port"]),
 ]
 
 
